@@ -115,7 +115,8 @@ Exceptions (such as ``-=``, which uses the aggregator :hy:func:`+
     (/ 1 a1)))
 
 (defop // [a1 a2 #* a-rest]
-  ["floor division"]
+  ["floor division"
+    :agg "*"]
   (reduce operator.floordiv (+ #(a2) a-rest) a1))
 
 (defop % [x y]
